@@ -34,7 +34,8 @@ RetClause(step, c, ret, funs) ==
       qv == IF c.q = 0 THEN ZeroP ELSE Queries[c.q].v
       rg == Sparse(ret.g, MaxP)  rf == Sparse(ret.f, MaxE)  rx == Sparse(ret.x, MaxP)
       ok == CASE c.op = "oracle" -> \E i \in 1..Len(P) : P[i].x = qv /\ P[i].g = rg /\ P[i].f = rf
-              [] c.op = "value"  -> \E i \in 1..Len(P) : P[i].x = qv /\ P[i].f = rf
+              [] c.op = "gradient" -> \E i \in 1..Len(P) : P[i].x = qv /\ P[i].g = rg
+              [] c.op \in {"value", "call"}  -> \E i \in 1..Len(P) : P[i].x = qv /\ P[i].f = rf
               [] c.op = "stat"   -> \E k \in 1..Len(funs[c.f].stat) : LET i == funs[c.f].stat[k] IN
                                        i \in 1..Len(P) /\ P[i].x = rx /\ VIsZero(P[i].g)
               [] c.op = "fixed"  -> \E i \in 1..Len(P) : P[i].x = rx /\ P[i].g = rx /\ P[i].f = rf
